@@ -5,6 +5,11 @@ V = os.path.dirname(os.path.dirname(os.path.abspath(__file__)))
 
 # id -> dict(level, engine, technique, text, note, design)
 CLAIMED = {
+ "C20": dict(level="exploration", engine="lib-inproc + vsh-virtual",
+   technique="(A) reference-parser monitor on common::syntax::parse_arguments, exhaustive over small option specifications and argument vectors; (B) metamorphic monitor: a catalogue of built-in invocations written from the documentation is rewritten into all equivalent spellings, each run in a fresh shell and compared on stdout, exit status, stderr emptiness and the state snapshot; malformed spellings must be rejected without effect; (C) equivalence tables for the bespoke parsers (set, kill, the shell's command line)",
+   text="A: every subset of <=3 options from a pool of 7 x both modes x every argument vector up to length 4 (quick) / 5 over 26 tokens. B: 18 built-ins (cd pwd command export readonly typeset read trap umask unalias unset ulimit jobs return alias type wait getopts), 80 catalogue invocations x all spellings (short separate/grouped, option-argument attached/separate, long full / every unambiguous prefix with = or separate argument, with and without --; capped at 48 / 600 per invocation by sampling) + per built-in: unknown short/long option, unknown short in a group, ambiguous prefix, missing option-argument, argument to a flag. C: 15 groups of set/kill command lines, 5 groups of shell command lines, 16 malformed ones.",
+   note="Trusted: models/optparse.rs (XBD 12.2 + documented extensions); the catalogue (docs/src/builtins/*.md, environment/options.md) as the statement of which spellings are equivalent. Special built-ins are run through `command` for the malformed cases so that the shell survives.",
+   design="5/C20"),
  "C17": dict(level="exploration", engine="lib-inproc",
    technique="reference-model monitor: token-list rewriting model of XCU 2.3.1 produces the hand-substituted text; the real parser with the alias table (look-up-counting Glossary, online look-up bound, CPU-time watchdog) must give the trees the same parser gives, without aliases, for that text",
    text="All alias tables a,b,c -> 16^3 (quick) / 32^3 (thorough) value combinations {other name, name+blank, tab-ending, inner alias word with trailing blank, self, two words, empty, blank only, reserved words, operators, redirection, assignment, quoted forms, embedded newline}, a global alias in every third table, x 36 templates with alias names in every slot + 40/120 random fillings (command, argument, after assignment/redirection, after ! ( { if then else elif while until do, for words, case subject/pattern/body, after line continuation and newline) + 20/60 token-soup lines.",
